@@ -13,6 +13,7 @@ from .._utils import (
     can_store,
     check_consistent_fill_value,
     check_zero_fill_value,
+    equivalent,
     is_unsigned_dtype,
     isscalar,
     normalize_axis,
@@ -567,7 +568,7 @@ def where(condition, x=None, y=None):
     if not (x_given or y_given):
         check_zero_fill_value(condition)
         condition = asCOO(condition, name=str(np.where))
-        return tuple(condition.coords)
+        return tuple(condition.coords[:, condition.data != 0])
 
     if x_given != y_given:
         raise ValueError("either both or neither of x and y should be given")
@@ -1211,7 +1212,7 @@ def unique_counts(x, /):
     UniqueCountsResult(values=array([-3,  0,  1,  2]), counts=array([1, 1, 2, 2]))
     """
 
-    x = _validate_coo_input(x)
+    x = _without_stored_fill_values(_validate_coo_input(x))
 
     x = x.flatten()
     values, counts = np.unique(x.data, return_counts=True)
@@ -1252,7 +1253,7 @@ def unique_values(x, /):
     array([-3,  0,  1,  2])
     """
 
-    x = _validate_coo_input(x)
+    x = _without_stored_fill_values(_validate_coo_input(x))
 
     x = x.flatten()
     values = np.unique(x.data)
@@ -1377,6 +1378,21 @@ def _validate_coo_input(x: Any):
     return x
 
 
+def _without_stored_fill_values(x):
+    """
+    Returns ``x`` without explicitly stored fill values. ``x`` itself is not modified.
+    """
+    from .core import COO
+
+    mask = ~equivalent(x.data, x.fill_value)
+    if mask.all():
+        return x
+
+    return COO(
+        x.coords[:, mask], x.data[mask], shape=x.shape, has_duplicates=False, sorted=True, fill_value=x.fill_value
+    )
+
+
 @numba.jit(nopython=True, nogil=True)
 def _sort_coo(
     coords: np.ndarray, data: np.ndarray, fill_value: float, sort_axis_len: int, descending: bool
@@ -1488,7 +1504,7 @@ def _arg_minmax_common(
     assert mode in ("max", "min")
     max_mode_flag = mode == "max"
 
-    x = _validate_coo_input(x)
+    x = _without_stored_fill_values(_validate_coo_input(x))
 
     if not isinstance(axis, int | type(None)):
         raise ValueError(f"`axis` must be `int` or `None`, but it's: {type(axis)}.")
